@@ -459,10 +459,16 @@ void StateMonitor::on_iteration(IterRec const& it,
                 }
                 rep_.observe_max("c05_disp_minus_step_cm", disp - r.step_post);
             }
-            if (r.vol_post != r.vol_pre && r.action_post != prob_.ids.boundary)
+            // a boundary crossing that failed inside the geometry is handed to the tracking cut in
+            // the same step (track errored and killed): the step was still limited by a boundary
+            bool const crossing_errored = (r.action_along == prob_.ids.boundary
+                                           && r.action_post == prob_.ids.tracking_cut && s_post == S_KILLED);
+            if (crossing_errored)
+                rep_.observe("boundary-crossing-errored-and-cut");
+            if (r.vol_post != r.vol_pre && r.action_post != prob_.ids.boundary && !crossing_errored)
                 fail("C05", "volume", "changed-without-boundary",
                      "volume changed in a step not limited by a boundary", step_json());
-            if (r.outside_post && !(s_post == S_KILLED && r.action_post == prob_.ids.boundary))
+            if (r.outside_post && !(s_post == S_KILLED && r.action_post == prob_.ids.boundary) && !crossing_errored)
                 fail("C05", "volume", "outside-not-killed", "track outside the world but not killed by the boundary action",
                      step_json());
             if (r.vol_pre >= 0 && r.mat_pre != prob_.spec.volume_to_mat[r.vol_pre])
@@ -516,8 +522,8 @@ void StateMonitor::on_iteration(IterRec const& it,
             double post_term = 0;
             if (s_post == S_ALIVE)
                 post_term = avail(t.particle, r.e_post);
-            else if (r.outside_post)
-                post_term = avail(t.particle, r.e_post);
+            else if (r.outside_post && r.action_post == prob_.ids.boundary)
+                post_term = avail(t.particle, r.e_post);  // left the world through the boundary action
             double sec_a = 0;
             for (auto const& s : r.secs)
                 sec_a += avail(s.particle, s.energy);
@@ -594,7 +600,7 @@ void StateMonitor::on_iteration(IterRec const& it,
             }
             events_[t.event].dep += r.edep_post;
             t.dep += r.edep_post;
-            if (r.outside_post)
+            if (r.outside_post && r.action_post == prob_.ids.boundary)
             {
                 t.exited = true;
                 t.a_exit = avail(t.particle, r.e_post);
